@@ -3,6 +3,7 @@ package props
 import (
 	"bufio"
 	"bytes"
+	"context"
 	"errors"
 	"fmt"
 	"github.com/yuin/goldmark/ast"
@@ -10,7 +11,9 @@ import (
 	"github.com/yuin/goldmark/text"
 	"github.com/yuin/goldmark/util"
 	"io"
+	"os"
 	"strings"
+	"syscall"
 
 	"verif/internal/core"
 )
@@ -26,11 +29,23 @@ var errSentinel = errors.New("verif: injected write failure")
 // cleaned up, a fixed-capacity buffer that was drained). before holds the bytes accepted before the first failure.
 type failWriter struct {
 	k         int
+	err       error // the error the writer fails with (errSentinel when nil)
 	transient bool
 	failed    bool
 	before    []byte
 	calls     int
 }
+
+func (f *failWriter) failure() error {
+	if f.err != nil {
+		return f.err
+	}
+	return errSentinel
+}
+
+// c14WellKnown: errors a real destination fails with (a closed pipe or file, a broken connection, a cancelled request):
+// the error the caller gets back must wrap exactly what the writer returned, whatever it is.
+var c14WellKnown = []error{io.ErrClosedPipe, os.ErrClosed, io.EOF, io.ErrShortWrite, syscall.EPIPE, context.Canceled, fmt.Errorf("write tcp: %w", os.ErrDeadlineExceeded)}
 
 func (f *failWriter) Write(p []byte) (int, error) {
 	f.calls++
@@ -38,7 +53,7 @@ func (f *failWriter) Write(p []byte) (int, error) {
 		if f.transient {
 			return len(p), nil
 		}
-		return 0, errSentinel
+		return 0, f.failure()
 	}
 	room := f.k - len(f.before)
 	if room >= len(p) {
@@ -50,7 +65,7 @@ func (f *failWriter) Write(p []byte) (int, error) {
 	}
 	f.before = append(f.before, p[:room]...)
 	f.failed = true
-	return room, errSentinel
+	return room, f.failure()
 }
 
 // richWriter is a destination that also offers WriteByte / WriteString / WriteRune, as *bytes.Buffer and many
@@ -66,7 +81,8 @@ func (r richWriter) WriteByte(c byte) error {
 func (r richWriter) WriteRune(c rune) (int, error) { return r.f.Write([]byte(string(c))) }
 
 var c14Variants = []string{"plain io.Writer", "caller bufio.Writer(16)", "io.Writer, transient failure", "writer with WriteByte/WriteString/WriteRune", "same, transient failure", "plain io.Writer, with a user node renderer that flushes after each paragraph and returns the error it gets",
-	"plain io.Writer, through Parser().Parse + Renderer().Render", "writer with WriteByte/WriteString/WriteRune, through Parse + Render", "caller bufio.Writer(16), through Parse + Render"}
+	"plain io.Writer, through Parser().Parse + Renderer().Render", "writer with WriteByte/WriteString/WriteRune, through Parse + Render", "caller bufio.Writer(16), through Parse + Render",
+	"plain io.Writer failing with io.ErrClosedPipe", "… os.ErrClosed", "… io.EOF", "… io.ErrShortWrite", "… syscall.EPIPE", "… context.Canceled", "… a wrapped os.ErrDeadlineExceeded"}
 
 // c14Flusher is a user-supplied node renderer for paragraphs that, unlike the built-in ones, looks at what the buffered
 // writer reports: it flushes when it leaves a paragraph and hands a failure back to the walk.
@@ -102,6 +118,9 @@ func c14Case(s *core.Sub, cfg core.Cfg, src, ref []byte, k, variant int) {
 		}
 	}
 	fw := &failWriter{k: k, transient: variant == 2 || variant == 4}
+	if variant >= 9 {
+		fw.err = c14WellKnown[variant-9]
+	}
 	var w io.Writer = fw
 	switch variant {
 	case 1, 8:
@@ -127,8 +146,8 @@ func c14Case(s *core.Sub, cfg core.Cfg, src, ref []byte, k, variant int) {
 		s.Violate("panic:"+vs, cfg.String(), src, ops, fmt.Sprintf("Convert panicked with a writer failing after %d bytes: %v", k, pan), "error return", "panic")
 	case k < len(ref) && err == nil:
 		s.Violate("nil-error-on-failed-writer:"+vs, cfg.String(), src, ops, fmt.Sprintf("writer failed after %d of %d bytes but Convert returned nil", k, len(ref)), "non-nil error", "nil")
-	case k < len(ref) && !errors.Is(err, errSentinel):
-		s.Violate("error-not-wrapping-writer-error:"+vs, cfg.String(), src, ops, "returned error does not wrap the writer's error: "+err.Error(), errSentinel.Error(), err.Error())
+	case k < len(ref) && !errors.Is(err, fw.failure()):
+		s.Violate("error-not-wrapping-writer-error:"+vs, cfg.String(), src, ops, "returned error does not wrap the writer's error: "+err.Error(), fw.failure().Error(), err.Error())
 	case k >= len(ref) && err != nil:
 		s.Violate("error-without-failure:"+vs, cfg.String(), src, ops, "writer never failed but Convert returned "+err.Error(), "nil", err.Error())
 	}
@@ -192,7 +211,7 @@ func runC14(r *core.Run) {
 	n := core.Pick(r, 2, 3)
 	for _, cn := range []string{"core", "all+autoid+attr"} {
 		cfg := core.MustCfg(cn)
-		wordsSub(r, "words/"+cn, fmt.Sprintf("for each word: every byte offset k in [0,len(out)+1] at which the writer starts failing (short write + sentinel), in 9 writer/entry variants (plain io.Writer, caller-supplied bufio.Writer(16), a writer that also has WriteByte/WriteString/WriteRune; the plain and the rich writer also with a transient failure after which calls succeed again; a user node renderer that returns the flush error; plain, rich and bufio writers through Parser().Parse + Renderer().Render instead of Convert), under %s: error wraps the sentinel, accepted bytes == out[:k]; distinct = reference output digest", cn),
+		wordsSub(r, "words/"+cn, fmt.Sprintf("for each word: every byte offset k in [0,len(out)+1] at which the writer starts failing (short write + sentinel), in 16 writer/entry variants (seven of them a plain writer failing with a well-known error: closed pipe, closed file, EOF, short write, EPIPE, cancelled context, wrapped deadline; plain io.Writer, caller-supplied bufio.Writer(16), a writer that also has WriteByte/WriteString/WriteRune; the plain and the rich writer also with a transient failure after which calls succeed again; a user node renderer that returns the flush error; plain, rich and bufio writers through Parser().Parse + Renderer().Render instead of Convert), under %s: error wraps the sentinel, accepted bytes == out[:k]; distinct = reference output digest", cn),
 			alpha, n, func(s *core.Sub, w int) func([]byte) uint64 {
 				return func(word []byte) uint64 {
 					c14Doc(s, cfg, word, 1)
@@ -203,7 +222,7 @@ func runC14(r *core.Run) {
 	ex := Spec(r)
 	for _, cn := range []string{"core+unsafe+xhtml", "all"} {
 		cfg := core.MustCfg(cn)
-		s := r.Sub("spec/"+cn, fmt.Sprintf("all %d spec examples × every failing offset × 9 writer/entry variants under %s", len(ex), cn))
+		s := r.Sub("spec/"+cn, fmt.Sprintf("all %d spec examples × every failing offset × 16 writer/entry variants under %s", len(ex), cn))
 		core.ForEachIndex(len(ex), core.Workers(), func(w int) func(int) {
 			return func(i int) {
 				c14Doc(s, cfg, []byte(ex[i].Markdown), 1)
